@@ -1060,6 +1060,9 @@ class BackendZ3(Backend):
         return z3.simplify(e).eq(z3.BoolVal(True, ctx=self._context))
 
     def _solution(self, expr, v, extra_constraints=(), solver=None, model_callback=None):
+        if isinstance(v, str):
+            # z3py would interpret escape sequences in a Python string it coerces ("\\u{61}" would mean "a")
+            v = _z3_string_literal(v, self._context)
         return self._satisfiable(
             extra_constraints=(expr == v, *tuple(extra_constraints)), solver=solver, model_callback=model_callback
         )
